@@ -413,7 +413,36 @@ func cancelWorker(req N) (resp N) {
 	vos := ros.NewVirtualOS(ctx, ros.WithStdout(stdout))
 	g0 := runtime.NumGoroutine()
 	t0 := time.Now()
-	_, err := risor.Eval(ctx, src, risor.WithOS(vos), risor.WithConcurrency(), risor.WithGlobal("tick", tick))
+	var err error
+	if reuse, _ := req["reuse"].(string); reuse != "" {
+		// one VM, two runs under the SAME context, which is done before the second run starts: cancelled while
+		// the VM was idle ("idle": the first run is a trivial program) or during the first run ("during": the
+		// first run is the script itself, stopped by the cancellation). The second run must return at once.
+		opts := []risor.Option{risor.WithOS(vos), risor.WithConcurrency(), risor.WithGlobal("tick", tick)}
+		machine, verr := vm.NewEmpty()
+		if verr != nil {
+			return N{"k": "novm", "msg": verr.Error()}
+		}
+		first := "1"
+		if reuse == "during" {
+			first = src
+		}
+		_, ferr := risor.Eval(ctx, first, append(opts, risor.WithVM(machine))...)
+		if reuse == "idle" {
+			if ferr != nil {
+				return N{"k": "nofirst", "msg": ferr.Error()}
+			}
+			cancelledAt.Store(time.Now().UnixNano())
+			cancel()
+		} else if ctx.Err() == nil {
+			return N{"k": "nofirst", "msg": fmt.Sprint("the first run was not cancelled: ", ferr)}
+		}
+		t0 = time.Now()
+		cancelledAt.Store(t0.UnixNano())
+		_, err = risor.Eval(ctx, src, append(opts, risor.WithVM(machine))...)
+	} else {
+		_, err = risor.Eval(ctx, src, risor.WithOS(vos), risor.WithConcurrency(), risor.WithGlobal("tick", tick))
+	}
 	ret := time.Now()
 	if cancelAt == 0 {
 		cancelledAt.Store(t0.Add(deadline).UnixNano())
